@@ -267,6 +267,13 @@ class World:
             self.fail(f[0], f[1], "%s [after %s]" % (f[2], after),
                       findings=[list(x) for x in F[:8]])
         self.ctx.count("world_checks")
+        # distinct structural states visited (shape of the forest, ids erased)
+        def shape(l):
+            kids = self.mods[l] if self.kind[l] == "IR" else self.children(l)
+            return (self.kind[l], tuple(sorted(shape(c) for c in kids)))
+        roots = [l for l in self.obj if self.kind[l] == "IR" or
+                 self.parent.get(l) is None]
+        self.ctx.seen("states", tuple(sorted(shape(r) for r in roots)))
 
     # ---- operations ----------------------------------------------------
     def log(self, **op):
@@ -327,6 +334,22 @@ class World:
                          "update0"])
         relname = RELNAME[ck[0]]
         others = self.pick_others(ck, p)
+        # operand form for the batch operations: a plain container, another
+        # owning collection of the same kind (its members are then moved
+        # while it is being iterated), or the collection itself
+        form = "plain"
+        operand = None
+        if op in ("update", "ior", "isub", "ixor", "iand") and \
+                rnd.random() < 0.3:
+            if rnd.random() < 0.7 and len(ps) > 1:
+                q = rnd.choice([x for x in ps if x != p])
+                others = self.children(q, ck)
+                operand = getattr(self.obj[q], coll)
+                form = "other-owning-collection"
+            else:
+                others = list(members)
+                operand = S
+                form = "itself"
         objs = [self.obj[x] for x in others]
         model = set(members)
         attach = [x for x in others if x not in model]
@@ -339,7 +362,9 @@ class World:
             if not self.can_attach_all(attach, p):
                 self.ctx.count("skipped:uuid-precondition")
                 return
-        self.log(op="set." + op, parent=p, coll=coll, others=others)
+        self.log(op="set." + op, parent=p, coll=coll, others=others,
+                 operand=form)
+        self.ctx.count("c16:set_operand:" + form)
         expect_exc = None
         ret = None
         exc = None
@@ -374,7 +399,8 @@ class World:
                 ret = S.update()
                 new = set(model)
             elif op == "update":
-                arg = rnd.choice([list, set, tuple, iter])(objs)
+                arg = operand if operand is not None else \
+                    rnd.choice([list, set, tuple, iter])(objs)
                 ret = S.update(arg)
                 new = model | set(others)
             elif op == "update2":
@@ -382,20 +408,22 @@ class World:
                 ret = S.update(objs[:k], set(objs[k:]))
                 new = model | set(others)
             elif op == "ior":
-                S |= set(objs)
+                S |= (operand if operand is not None else set(objs))
                 new = model | set(others)
             elif op == "isub":
-                S -= set(objs)
+                S -= (operand if operand is not None else set(objs))
                 new = model - set(others)
             elif op == "ixor":
-                S ^= set(objs)
+                S ^= (operand if operand is not None else set(objs))
                 new = model ^ set(others)
             elif op == "iand":
-                S &= set(objs)
+                S &= (operand if operand is not None else set(objs))
                 new = model & set(others)
         except Exception as e:
             exc = e
         tag = "set.%s:%s" % (op, relname)
+        if form != "plain":
+            tag += ":operand-" + form
         if exc is not None:
             if expect_exc is None or not isinstance(exc, expect_exc):
                 self.fail("C16", "%s:raises:%s" % (tag, type(exc).__name__),
@@ -531,8 +559,16 @@ class World:
         elif op in ("extend", "iadd"):
             xs = [pick_mod() for _ in range(rnd.randint(0, 3))]
             xs = list(dict.fromkeys(xs))
-            incoming = xs
             wrap = rnd.choice(ARG_KINDS)
+            if rnd.random() < 0.25:
+                # the argument is another IR's module list, or this one
+                irs = self.lids(["IR"])
+                src = rnd.choice(irs)
+                xs = list(self.mods[src])
+                srcobj = self.obj[src].modules
+                wrap = ("owning-list" if src != irl else "itself",
+                        lambda objs, srcobj=srcobj: srcobj)
+            incoming = xs
             args = {"arg_kind": wrap[0]}
             if op == "extend":
                 fn = lambda T: T.extend(wrap[1]([self.obj[x] for x in xs]))
@@ -731,6 +767,20 @@ class World:
                 return
             extra[stolen_attr] = rnd.choice([list, set, iter])(
                 [self.obj[x] for x in stolen])
+            # sometimes hand over another parent's live collection itself
+            donors = [q for q in self.lids([k]) if self.children(
+                q, {"sections": "S", "symbols": "Y", "proxies": "P",
+                    "byte_intervals": "I", "blocks": "CD"}[stolen_attr])]
+            if donors and rnd.random() < 0.3:
+                q = rnd.choice(donors)
+                cand = self.children(q, {"sections": "S", "symbols": "Y",
+                                         "proxies": "P",
+                                         "byte_intervals": "I",
+                                         "blocks": "CD"}[stolen_attr])
+                if p is None or self.can_attach_all(cand, p):
+                    stolen = cand
+                    extra[stolen_attr] = getattr(self.obj[q], stolen_attr)
+                    self.ctx.count("ctor:children-from-live-collection")
         if k == "Y" and rnd.random() < 0.6:
             blocks = self.lids("CDP")
             extra["payload_lid"] = rnd.choice(
